@@ -64,7 +64,16 @@ func Mutate(t *rapid.T, ts Tables, k int, allowStructural bool) (Tables, []strin
 				continue
 			}
 			r := rapid.IntRange(0, len(tb.Rows)-1).Draw(t, "refRow")
-			v := "NOPE"
+			// an id nothing in THIS feed carries - "NOPE", or one of the ids generated feeds commonly use, which other feeds parsed
+			// in the same process do carry
+			v := rapid.SampledFrom([]string{"NOPE", "NOPE", "s1", "s7", "S3", "s_2", "t1", "T2", "r1", "a1", "sv1", "sh1", "ring5", "s0~3"}).Draw(t, "danglingID")
+			if tgt := out.Get(rc[2]); tgt != nil && tgt.Col(rc[3]) >= 0 {
+				for _, row := range tgt.Rows {
+					if row[tgt.Col(rc[3])] == v {
+						v = "NOPE" // present after all
+					}
+				}
+			}
 			if m == 1 {
 				v = ""
 			}
